@@ -101,10 +101,14 @@ func genStrings(t *rapid.T) Case {
 			return c
 		}
 		pos := rapid.IntRange(0, len(s)).Draw(t, "pos")
-		length := rapid.IntRange(0, len(s)+2).Draw(t, "len")
+		length := strconv.Itoa(rapid.IntRange(0, len(s)+2).Draw(t, "len"))
+		if rapid.IntRange(0, 7).Draw(t, "toTheEnd") == 0 {
+			// "to the end of the text": a length far beyond it
+			length = rapid.SampledFrom([]string{"1000000", "2147483647", "2147483648", "4611686018427387904", "9223372036854775806", "9223372036854775807"}).Draw(t, "hugeLen")
+		}
 		add(s, false)
 		add(strconv.Itoa(pos), false)
-		add(strconv.Itoa(length), false)
+		add(length, false)
 	case "select":
 		n := rapid.IntRange(1, 5).Draw(t, "words")
 		var sb strings.Builder
@@ -315,7 +319,7 @@ func checkStrings(c Case) error {
 		}
 		pos, _ := canonInt(v[1])
 		length, _ := canonInt(v[2])
-		if pos < 0 || length < 0 || pos > int64(len(v[0])) || length > 1<<20 {
+		if pos < 0 || length < 0 || pos > int64(len(v[0])) {
 			return nil // not generated
 		}
 		r, err := evalClean(c)
@@ -323,6 +327,9 @@ func checkStrings(c Case) error {
 			return err
 		}
 		end := pos + length
+		if length > int64(len(v[0])) { // also keeps pos+length from overflowing
+			end = int64(len(v[0])) + 1
+		}
 		if end <= int64(len(v[0])) {
 			c.Obs.Label(length == 0, "zero-length")
 			c.Obs.Label(end == int64(len(v[0])), "reaches-end")
@@ -330,10 +337,9 @@ func checkStrings(c Case) error {
 			return wantExact(c, r, v[0][pos:end])
 		}
 		c.Obs.Label(true, "past-end")
-		if !strings.HasPrefix(v[0][pos:], r.out) {
-			return fail(c, r, "result is not a piece of the text starting at pos %d", pos)
-		}
-		return nil
+		c.Obs.Label(length > 1<<31, "astronomic-length")
+		// a length reaching beyond the text takes what is there: the rest of the text from pos
+		return wantExact(c, r, v[0][pos:])
 	case "select":
 		if len(v) != 2 {
 			return nil
